@@ -3,6 +3,8 @@
 Every function returns a list of encgen.Skel.  `quick` selects the per-change
 subset; the thorough tier enumerates every documented form x shape.
 """
+import re
+
 from . import forms as F
 from .encgen import Skel, MemShape, add_mem, ALL_SHAPE_KINDS
 
@@ -497,13 +499,35 @@ def c02_classes(quick):
     return cls
 
 
+C02_DEEP_CLASSES = ("int.mr.mov", "int.rm.add", "int.lea", "int.m.neg")
+
+
 def c02_families(quick):
+    """quick: a reduced class list x 20 shapes, one keyword rotated over the shapes.
+    thorough: every class x the 20 shapes with all four keywords, and every
+    shape (all kinds x scales x displacement spellings) for the classes in
+    C02_DEEP_CLASSES plus the first vector and VEX class (the addressing code is
+    shared by all classes; what differs per class is checked on the 20 shapes)."""
     out = []
-    shapes = quick_shapes() if quick else all_shapes()
+    qs, al = quick_shapes(), None
+    deep_extra = set()
     for cname, fn in c02_classes(quick):
+        if quick:
+            shapes = qs
+        else:
+            deep = cname in C02_DEEP_CLASSES
+            for pre in ("sse.", "vex.", "mmx.", "bmi."):
+                if cname.startswith(pre) and pre not in deep_extra:
+                    deep_extra.add(pre)
+                    deep = True
+            if deep and al is None:
+                al = all_shapes()
+            shapes = al if deep else qs
+            # the condition-code families share one table-row pattern per family: every member on a third of the shapes
+            if not deep and re.match(r"int\.(rm\.cmov|m\.set)", cname) and cname not in ("int.rm.cmovne", "int.m.setne"):
+                shapes = qs[(len(out) % 3)::3]
         for i, sh in enumerate(shapes):
-            # keyword variants: thorough -> all four on every shape; quick -> rotate one keyword over the shapes
-            if quick:
+            if quick or not deep:
                 kws = [["byte", "word", "dword", "qword"][i % 4]] if i % 3 == 0 else []
             else:
                 kws = ["byte", "word", "dword", "qword"]
@@ -1050,10 +1074,12 @@ def c16_base_families(quick):
 # ---------------------------------------------------------------------------
 # C06 (query C): a line in the context of a program yields the code it yields alone
 
+# (only registers and literals that are not skeleton placeholders: the symbolic build's str_to_reg/strtoul stubs
+#  bind rax rcx rdx rbx rsi rdi, xmm0-5, ymm0-5 and literals of one repeated digit to symbolic values)
 CONTEXT_LINES = [
-    "lea rax, [rbx+rcx*2]", "mov byte [rdi+rax], 5", "vpaddd ymm1, ymm2, [r8+r9*4+0x10]", "jmp short 0x4", "push rbx",
-    "shl rax, 1", "movzx eax, byte [rcx]", "mov rax, 0x1122334455667788", "paddd xmm9, [rsp+r13*4]", "imul r9w, word [eax-0x80], 0x1234",
-    "jmp far dword [r12]", "setne byte [rbp]", "shld qword [rax], rcx, cl", "test qword [rax+rcx*2], 0x7fffffff",
+    "lea r8, [r9+r10*2]", "mov byte [rbp+r11], 5", "vpaddd ymm8, ymm9, [r8+r9*4+0x10]", "jmp short 0x4", "push r12",
+    "shl r13, 1", "movzx r9d, byte [r10]", "mov r11, 0x1234567812345678", "paddd xmm9, [rsp+r13*4]", "imul r9w, word [r8d-0x80], 0x1234",
+    "jmp far dword [r12]", "setne byte [rbp]", "shld qword [r8], r9, cl", "test qword [r8+r9*2], 0x7fffffff",
 ]
 
 
